@@ -554,6 +554,55 @@ def fp_obs(obs):
 
 
 # ------------------------------------------------------------------------- queries
+def expand_ops(ops):
+    """History letters: 'n' next(it); 'i' iter(it); ('f', m) for-loop over the iterator, break after m
+    events; ('s', m) for-loop over itertools.islice(it, m); 'F' for-loop to exhaustion."""
+    return ops
+
+
+def run_history(f, q):
+    """One EventIterator (f[a:b:s], or iter(f) when whole) driven by a history of next / iter / for /
+    islice; every delivered event is observed (all accessors -> fingerprint, total_events_thrown).
+    Returns ["ok", [[fp, thrown] | "stop" | "iter" ...], prim] where prim is the primitive
+    next/iter sequence that was actually performed (for the model)."""
+    import itertools
+    _, fid, k, whole, a, b, s, ops = q[:8]
+    it = iter(f) if whole else f[slice(a, b, s)]
+    out, prim = [], []
+
+    def obs(ev):
+        return [fp_obs(observe_event(ev, deep=False) + [ana_tobs(observe_analysis(ev))]), int(ev.total_events_thrown)]
+    for op in ops:
+        if op == "n":
+            prim.append("n")
+            try:
+                ev = next(it)
+                out.append(obs(ev))
+            except StopIteration:
+                out.append("stop")
+        elif op == "i":
+            prim.append("i")
+            r = iter(it)
+            out.append("iter" if r is it else "iter-not-self")
+        else:
+            kind, m = (op, None) if op == "F" else op
+            src = it if kind in ("F", "f") else itertools.islice(it, m)
+            prim.append("i")
+            out.append("iter")
+            got = 0
+            for ev in src:
+                prim.append("n")
+                out.append(obs(ev))
+                got += 1
+                if kind == "f" and got == m:
+                    break
+            else:
+                if not (kind == "s" and got == m):
+                    prim.append("n")          # the next() that raised StopIteration and ended the loop
+                    out.append("stop")
+    return ["ok", out, prim]
+
+
 class Readers:
     """Cache of open pyrex.File readers keyed by (path, slice_range): a reader holds no
     iteration state of its own, so sharing one between queries does not change any result."""
@@ -641,6 +690,8 @@ def run_query(q, paths, deep=False, readers=None):
                 fps.append(fp_obs(observe_event(ev, deep=deep) + [ana_tobs(a)]))
                 ana.append(a)
             return ["ok", fps, ana]
+        if kind == "hist":
+            return run_history(f, q)
         if kind == "wf":
             # HDF5Reader.get_waveforms(event_id, antenna_id, waveform_type): one waveform row of one event
             i, k, form = q[3], q[4], q[5]
@@ -689,7 +740,13 @@ def run_impl(case, scratch, tag="c", query_gen=None):
             case["queries"] = query_gen(case, files)
         readers = Readers()
         try:
-            queries = [run_query(q, paths, readers=readers) for q in case.get("queries", [])]
+            queries = []
+            for q in case.get("queries", []):
+                r = run_query(q, paths, readers=readers)
+                if q[0] == "hist":
+                    del q[8:]
+                    q.append(r[2] if r[0] == "ok" else [])
+                queries.append(r)
         finally:
             readers.close()
     finally:
@@ -811,6 +868,11 @@ def coq_query(q):
         return "(QInt %d %s %s)" % (fid, coq_oz(k), zl(q[3]))
     if kind == "slice":
         return "(QSlice %d %s %s %s %s)" % (fid, coq_oz(k), coq_oz(q[3]), coq_oz(q[4]), coq_oz(q[5]))
+    if kind == "hist":
+        prim = q[8] if len(q) > 8 else None
+        assert prim is not None, "history query without its primitive op sequence"
+        return "(QHist %d %s %s %s %s %s [%s])" % (fid, coq_oz(k), coq_bool(q[3]), coq_oz(q[4]), coq_oz(q[5]), coq_oz(q[6]),
+                                                  "; ".join("INext" if c == "n" else "IIter" for c in prim))
     if kind == "wf":
         return "(QWf %d %s %s)" % (fid, zl(q[3]), zl(q[4]))
     if kind == "wfev":
@@ -949,6 +1011,8 @@ def canon_model(s):
             out_q.append(("err", q[1]))
         elif q[0] == "QOk":
             out_q.append(("ok", q[1]))
+        elif q[0] == "QHistOk":
+            out_q.append(("ok", [list(_flat_tuple(e)) for e in q[1]]))
         elif q[0] == "QGenOk":
             items = [[list(_flat_tuple(e))[0], list(_flat_tuple(e))[1]] for e in q[1]]
             out_q.append(("ok", items + (["stop"] if q[2] else [])))
@@ -1174,6 +1238,38 @@ def gen_queries(rng, fid, n, thorough=False, max_slices=None):
     return qs + sl
 
 
+def gen_histories(rng, fid, n, count):
+    """Op histories on one iterator for many (slice_range, slice) combinations of one file."""
+    qs = []
+    if n < 1:
+        return qs
+    for _ in range(count):
+        k = rng.choice([None] + list(range(1, n + 2)))
+        if rng.random() < 0.15:
+            whole, a, b, s = True, None, None, None
+        else:
+            whole = False
+            a = rng.randrange(0, n)
+            b = rng.randrange(a + 1, n + 1)
+            s = rng.choice([None, 1, 2, 2, 3, 4])
+            (a, b) = spellings(rng, a, b, n)[0]
+        ops = []
+        for _ in range(rng.choice([2, 3, 4, 5, 7])):
+            r = rng.random()
+            if r < 0.4:
+                ops.append("n")
+            elif r < 0.6:
+                ops.append("i")
+            elif r < 0.8:
+                ops.append(["f", rng.choice([1, 1, 2, 3])])
+            elif r < 0.92:
+                ops.append(["s", rng.choice([0, 1, 2, 3])])
+            else:
+                ops.append("F")
+        qs.append(["hist", fid, k, whole, a, b, s, ops])
+    return qs
+
+
 # =================================================================== python-side oracle
 def _trig_only(o):
     r = o["require_trigger"]
@@ -1315,6 +1411,41 @@ def oracle_query(q, got, recs, fcs):
     n = len(base)
     if kind == "len":
         return "" if got == ["ok", [n]] else "len(file) gives %s, sequential pass has %d events" % (got, n)
+    if kind == "hist":
+        whole, a, b, s = q[3], q[4], q[5], q[6]
+        if whole:
+            aa, bb, ss = 0, n, 1
+        else:
+            aa = 0 if a is None else (a + n if a < 0 else a)
+            bb = n if b is None else (b + n if b < 0 else b)
+            ss = 1 if s is None else s
+        if not (0 <= aa < bb <= n and ss >= 1 and (q[2] is None or q[2] >= 1)):
+            return ""
+        if got[0] != "ok":
+            return "%s raises %s" % (describe_query(q), got[1])
+        idxs = list(range(aa, bb, ss))
+        total = recs[fid]["thrown"]                 # attrs['total_thrown'] read with plain h5py
+        j = 0
+        for pos, item in enumerate(got[1]):
+            if item == "iter":
+                continue
+            if isinstance(item, str) and item != "stop":
+                return "%s: iter(iterator) does not return the iterator" % describe_query(q)
+            if j < len(idxs):
+                i = idxs[j]
+                want = [base[i], int((i + 1) / n * total)]
+                if item == "stop":
+                    return "%s: StopIteration at call %d although event %d of the slice was not delivered yet" % (describe_query(q), pos, i)
+                if item[0] != want[0]:
+                    where = [e for e, fpv in enumerate(base) if fpv == item[0]]
+                    return "%s: call %d delivers %s instead of event %d (delivered indices must be %s in order, each once)" % (
+                        describe_query(q), pos, ("event %s" % where) if where else "data of no event", i, idxs)
+                if item[1] != want[1]:
+                    return "%s: total_events_thrown at event %d is %d, int((%d+1)/%d*%d) = %d" % (describe_query(q), i, item[1], i, n, total, want[1])
+            elif item != "stop":
+                return "%s: call %d delivers an event after the slice's %d events were delivered" % (describe_query(q), pos, len(idxs))
+            j += 1
+        return ""
     if kind in ("wf", "wfev"):
         evs = recs[fid]["events"][2]
         i = q[3]
@@ -1376,6 +1507,9 @@ def describe_query(q):
         return "f[%d] (slice_range=%s)" % (q[3], q[2])
     if q[0] == "slice":
         return "f[%s:%s:%s] (slice_range=%s)" % (q[3], q[4], q[5], q[2])
+    if q[0] == "hist":
+        src = "iter(f)" if q[3] else "f[%s:%s:%s]" % (q[4], q[5], q[6])
+        return "%s (slice_range=%s) driven by %s" % (src, q[2], json.dumps(q[7]))
     if q[0] == "wf":
         return "reader.get_waveforms(event_id=%d, waveform_type=%d as %s)" % (q[3], q[4], q[5])
     if q[0] == "wfev":
@@ -1406,6 +1540,26 @@ def gen_diff(impl_q, model_q):
     return ""
 
 
+def hist_items(items):
+    return [[-1, -1] if it == "stop" else [-2, -2] if it == "iter" else [-3, -3] if isinstance(it, str) else it for it in items]
+
+
+def hist_diff(q, impl_q, model_q):
+    """Iterator histories: delivered fingerprints exactly; total_events_thrown may be one below the
+    exact floor((i+1)*T/n) of the model because the code evaluates (i+1)/n*T in floating point."""
+    if impl_q[0] != model_q[0]:
+        return "%s: outcome %r (impl) vs %r (model)" % (describe_query(q), impl_q[:2], model_q[:2])
+    if impl_q[0] == "err":
+        return "" if impl_q[1] == model_q[1] else "%s: error %r (impl) vs %r (model)" % (describe_query(q), impl_q[1], model_q[1])
+    a, b = hist_items(impl_q[1]), model_q[1]
+    if len(a) != len(b):
+        return "%s: %d outputs (impl) vs %d (model)" % (describe_query(q), len(a), len(b))
+    for i, (x, y) in enumerate(zip(a, b)):
+        if x[0] != y[0] or x[1] not in (y[1], y[1] - 1) or (y[1] < 0 and x[1] != y[1]):
+            return "%s: output %d is %r (impl) vs %r (model)" % (describe_query(q), i, x, y)
+    return ""
+
+
 def compare(case, impl, model_str):
     """'' when implementation and model agree on the whole case, else the first difference."""
     try:
@@ -1421,6 +1575,8 @@ def compare(case, impl, model_str):
     for i, (q, x, y) in enumerate(zip(case.get("queries", []), ci_q, cm_q)):
         if q[0] == "gen":
             d = gen_diff(x, y)
+        elif q[0] == "hist":
+            d = hist_diff(q, x, y)
         else:
             d = diff(x, y, "query[%d]=%s" % (i, describe_query(q)))
         if d:
@@ -1444,6 +1600,7 @@ PINNED = {"pyrex/io.py": ["HDF5Writer.add", "HDF5Writer._rollback", "HDF5Writer.
                           "EventIterator._get_event_data", "HDF5Reader.__getitem__", "HDF5Reader.__iter__",
                           "HDF5Reader.__len__", "HDF5Reader.open", "HDF5Reader.get_waveforms", "HDF5Reader._get_table_slice",
                           "EventIterator.get_waveforms", "EventIterator.get_triggered_components", "EventIterator.get_data",
+                          "EventIterator.__iter__", "EventIterator.total_events_thrown",
                           "HDF5Writer.add_analysis_indices", "HDF5Writer.create_analysis_dataset"],
           "pyrex/generation.py": ["FileGenerator.__init__", "FileGenerator._load_events", "FileGenerator._next_file",
                                   "FileGenerator.create_event", "FileGenerator.count"]}
@@ -1561,6 +1718,20 @@ def shrink(case, fails, budget=30):
             if attempt(c):
                 best = c
                 break
+    # iterator histories: drop ops of the failing history one at a time
+    if len(best.get("queries", [])) == 1 and best["queries"][0][0] == "hist":
+        changed = True
+        while changed and used[0] < budget:
+            changed = False
+            for oi in reversed(range(len(best["queries"][0][7]))):
+                if len(best["queries"][0][7]) <= 1:
+                    break
+                c = copy.deepcopy(best)
+                del c["queries"][0][7][oi]
+                del c["queries"][0][8:]
+                if attempt(c):
+                    best = c
+                    changed = True
     # split groups: look for a single (single-session file, split file) pair that still fails
     if best.get("split_group") and len(best["files"]) > 2:
         for fi in range(1, len(best["files"])):
@@ -1620,6 +1791,9 @@ def run_batch(ctx, cases, prop, stats, query_gen=None, with_model=True, label=""
         ctx.case(key=case_key(prop, case), nontrivial=nontrivial,
                  sample={"opts": case["files"][0]["opts"], "det": case["files"][0]["det"],
                          "outcomes": impl["files"][0]["outcomes"][:12], "n_queries": len(case.get("queries", []))})
+        for q in case.get("queries", []):
+            if q[0] == "hist":
+                ctx.case(key=("hist", i, json.dumps(q[:8])), nontrivial=True)
         for v in judge(case, impl, prop):
             problems.append((case, "property", v))
             break
